@@ -7,7 +7,7 @@ From Qryn Require Import model.LogqlMetricPost proofs.LogqlMetricPostProofs.
 From Qryn Require Import model.SqlEval model.LogqlSem model.LogqlMetricE2E proofs.LogqlMetricE2EProofs.
 From Qryn Require Import model.LogqlMetricFloat proofs.LogqlMetricFloatProofs.
 From Qryn Require Import model.SqlEvalAgg model.LogqlMetricExec proofs.LogqlMetricExecProofs.
-From Qryn Require Import proofs.LogqlMetricSlotsProofs.
+From Qryn Require Import proofs.LogqlMetricSlotsProofs proofs.LogqlMetricTopkProofs.
 Import ListNotations.
 Open Scope Z_scope.
 
@@ -129,6 +129,24 @@ Theorem topk_correct :
   end.
 Proof. exact LogqlMetricProofs.topk_correct. Qed.
 Print Assumptions topk_correct.
+
+(* TopKPlanner sorts tuples (value, fingerprint, labels) whose third component is a Map; how ClickHouse orders Map values inside a
+   tuple sort is not documented. The comparison never gets there: the rows of one timestamp have pairwise distinct fingerprints (they
+   come from a select grouped by fingerprint and timestamp), and on such a group two distinct rows never tie on (value, fingerprint) *)
+Theorem topk_order_never_compares_labels : forall top (g : list mrow),
+  (forall a b, List.In a g -> List.In b g -> r_fp a = r_fp b -> a = b) ->
+  forall a b, List.In a g -> List.In b g -> a <> b -> tk_before top a b = true -> tk_before top b a = false.
+Proof. exact tk_order_strict. Qed.
+Print Assumptions topk_order_never_compares_labels.
+
+(* the kept sets the check enumerates to judge topk / bottomk under a step longer than the range (model/LogqlMetricExec.v) are
+   top-(bottom-)k sets of the rows of one timestamp: min(k, n) of them, and no row left out beats a kept one *)
+Theorem topk_enumerated_sets_are_topk_sets : forall k top (I K : list vrow), List.In K (topk_sets k top I) ->
+  exists D, Permutation.Permutation (K ++ D) I /\ Z.of_nat (List.length K) = Z.min (Z.max k 0) (Z.of_nat (List.length I)) /\
+            forall x d, List.In x K -> List.In d D ->
+              if top then Qle_bool (this (v_val d)) (this (v_val x)) = true else Qle_bool (this (v_val x)) (this (v_val d)) = true.
+Proof. exact topk_sets_sound. Qed.
+Print Assumptions topk_enumerated_sets_are_topk_sets.
 
 (* the same for topk / bottomk over a script answered from the roll-up table (the plan always exists there) *)
 Theorem topk_correct_shortcut :
